@@ -80,7 +80,7 @@ Fixpoint simple_matches (fuel : nat) (e : elem) (s : simple) : bool :=
   | SUnmatchable => false
   | SId v => match attr_lookup e.(e_attrs) (bs "id") with Some x => bytes_eqb x v | None => false end
   | SClass v => match attr_lookup e.(e_attrs) (bs "class") with Some x => existsb (fun c => bytes_eqb c v) (words [] x) | None => false end
-  | SAttrExists n => match attr_lookup e.(e_attrs) (lower_bytes n) with Some _ => true | None => false end
+  | SAttrExists n => match attr_lookup e.(e_attrs) n with Some _ => true | None => false end      (* n is the lower-cased name by construction *)
   | SAttr n v cs op =>
       match attr_lookup e.(e_attrs) (lower_bytes n) with
       | Some actual => css_attr_cmp op (insens_of cs (ns_eqb e.(e_ns) Html)) actual v
